@@ -15,7 +15,7 @@
    H n alpha beta L[n*n] v[n]   -> H L'[n*n]  |  H EXC                  (chol_update)
    NI n big p0len p0[p0len] start[n] k (val pt[n])*k
        -> NI (val pt[n])*(n+1) B bestval bplen bestpt[bplen] L nlook miss (pt[n])*nlook
-          (sd_init; the objective is the TABLE of the implementation's own evaluations (k entries): a point the model asks for that
+          (sd_init — as repaired by d2acfe00, big and p0 are ignored; the objective is the TABLE of the implementation's own evaluations (k entries): a point the model asks for that
            the implementation did not evaluate sets miss = 1; the points the model asked for are listed in order)
    NS n (val pt[n])*(n+1) bestval bplen bestpt[bplen] k (val pt[n])*k
        -> NS (val pt[n])*(n+1) B bestval bplen bestpt[bplen] L nlook miss (pt[n])*nlook          (sd_step, same oracle convention)
@@ -232,7 +232,8 @@ let () =
             let p0 = let k = nxti () in vecn k in
             let start = vecn n in
             let tbl = let k = nxti () in List.init k (fun _ -> soln ()) in
-            sd_init fops (oracle tbl) big p0 start
+            ignore big; ignore p0;    (* the repaired init (d2acfe00) no longer depends on the literal / the stale point *)
+            sd_init fops (oracle tbl) start
           end else begin
             let simplex = List.init (n + 1) (fun _ -> soln ()) in
             let bv = nxt () in let bp = let k = nxti () in vecn k in
